@@ -489,6 +489,9 @@ type vfC13pSys struct {
 	started   bool
 	rnd       *mrand.Rand
 	ps        peerstore.Peerstore
+	cab       peerstore.CertifiedAddrBook
+	cond      *sync.Cond
+	reading   bool // updateSnapshot is between its first and its last read of the host
 	net       *vfC13pNet
 	host      *vfC13pHost
 	ids       *idService
@@ -532,7 +535,9 @@ func vfC13pNew(gated bool, seed int64, withRecord bool, opts ...string) (*vfC13p
 	if err != nil {
 		return nil, err
 	}
-	s.ps = ps
+	s.cond = sync.NewCond(&s.mu)
+	s.cab = ps
+	s.ps = &vfC13pPS{Peerstore: ps, cab: ps, sys: s}
 	if err := ps.AddPrivKey(vfC13pG.idL, vfC13pG.privL); err != nil {
 		return nil, err
 	}
@@ -545,7 +550,10 @@ func vfC13pNew(gated bool, seed int64, withRecord bool, opts ...string) (*vfC13p
 	s.hostProtos = []protocol.ID{ID, IDPush, "/vf/base"}
 	s.hostAddrs = []ma.Multiaddr{ma.StringCast("/ip4/100.64.0.1/tcp/4001"), ma.StringCast("/ip4/8.8.4.4/udp/4001/quic-v1")}
 	if withRecord {
-		if err := s.newRecord(); err != nil {
+		s.mu.Lock()
+		err := s.newRecord()
+		s.mu.Unlock()
+		if err != nil {
 			return nil, err
 		}
 	}
@@ -560,7 +568,9 @@ func vfC13pNew(gated bool, seed int64, withRecord bool, opts ...string) (*vfC13p
 		return nil, err
 	}
 	s.ids = ids
+	s.mu.Lock()
 	s.noteHost()
+	s.mu.Unlock()
 	s.updTicks = append(s.updTicks, s.tick)
 	ids.Start()
 	// Start() takes the first snapshot and only then starts the loop goroutine, which subscribes to the bus:
@@ -582,22 +592,37 @@ func (s *vfC13pSys) save() vfC13pSaved {
 }
 
 // newRecord seals a peer record of the host with the next sequence number and stores it where
-// updateSnapshot reads it (the peerstore's certified address book).  Call without s.mu held.
+// updateSnapshot reads it (the peerstore's certified address book).  s.mu must be held.
 func (s *vfC13pSys) newRecord() error {
-	s.mu.Lock()
 	s.recSeq++
 	rec := &peer.PeerRecord{PeerID: vfC13pG.idL, Addrs: append([]ma.Multiaddr{}, s.hostAddrs...), Seq: s.recSeq}
-	s.mu.Unlock()
 	env, err := record.Seal(rec, vfC13pG.privL)
 	if err != nil {
 		return err
 	}
-	cab, ok := peerstore.GetCertifiedAddrBook(s.ps)
-	if !ok {
-		return errors.New("no certified address book")
-	}
-	_, err = cab.ConsumePeerRecord(env, peerstore.PermanentAddrTTL)
+	_, err = s.cab.ConsumePeerRecord(env, peerstore.PermanentAddrTTL)
 	return err
+}
+
+// the peerstore handed to identify: the real one; GetPeerRecord(own ID) is the last thing updateSnapshot reads
+type vfC13pPS struct {
+	peerstore.Peerstore
+	cab peerstore.CertifiedAddrBook
+	sys *vfC13pSys
+}
+
+func (ps *vfC13pPS) ConsumePeerRecord(e *record.Envelope, ttl time.Duration) (bool, error) {
+	return ps.cab.ConsumePeerRecord(e, ttl)
+}
+func (ps *vfC13pPS) GetPeerRecord(p peer.ID) *record.Envelope {
+	r := ps.cab.GetPeerRecord(p)
+	if p == vfC13pG.idL {
+		ps.sys.mu.Lock()
+		ps.sys.reading = false
+		ps.sys.cond.Broadcast()
+		ps.sys.mu.Unlock()
+	}
+	return r
 }
 
 func vfC13pKey(protos []string, addrs [][]byte, rec uint64) string {
@@ -624,14 +649,23 @@ func (s *vfC13pSys) hostKey() string {
 	return vfC13pKey(protocol.ConvertToStrings(s.hostProtos), a, s.recSeq)
 }
 
+// noteHost appends the host's present state to its history.  s.mu must be held: a change and its line in the
+// ledger are one step for everything that reads the host.
 func (s *vfC13pSys) noteHost() {
-	s.mu.Lock()
 	s.tick++
 	s.hist = append(s.hist, vfC13pHostVer{s.tick, s.hostKey()})
 	if len(s.hist) > 1 {
 		s.trace.Emit("change", "host", len(s.hist)-1)
 	}
-	s.mu.Unlock()
+}
+
+// quiet waits until updateSnapshot is not in the middle of its three reads (protocols, addresses, record): the
+// host does not change between them (assumption of the harness; a torn snapshot is repaired by the next event).
+// s.mu must be held.
+func (s *vfC13pSys) quiet() {
+	for s.reading {
+		s.cond.Wait()
+	}
 }
 
 func (s *vfC13pSys) connList() []*vfC13pConn {
@@ -659,6 +693,7 @@ func (s *vfC13pSys) updateGate() {
 	}
 	if !s.gated {
 		s.tick++
+		s.reading = true
 		s.updTicks = append(s.updTicks, s.tick)
 		s.trace.Emit("upd", "host", len(s.hist)-1, "cls", s.verOf(s.hist[len(s.hist)-1].Key))
 		s.mu.Unlock()
@@ -867,55 +902,53 @@ func (s *vfC13pSys) emit(protos bool) {
 }
 
 // change applies a host change.  kind fresh: something nobody has seen (a protocol, an address or a new signed
-// record, by the seed; a record only if allowRec); kind revert: back to the saved state `to`.
+// record, by the seed; a record only if allowRec); kind revert: back to the saved state `id`.
 func (s *vfC13pSys) change(kind string, id int, allowRec bool) (string, error) {
 	sub := "proto"
+	s.mu.Lock()
+	s.quiet()
 	switch kind {
 	case "fresh":
-		s.mu.Lock()
 		s.nfresh++
 		n := s.nfresh
 		switch k := s.rnd.Intn(4); {
 		case k == 0 && allowRec:
 			sub = "rec"
+			if err := s.newRecord(); err != nil {
+				s.mu.Unlock()
+				return "", err
+			}
 		case k == 1:
 			sub = "addr"
 			if len(s.hostAddrs) > 2 && s.rnd.Intn(2) == 0 {
 				s.hostAddrs = s.hostAddrs[:len(s.hostAddrs)-1] // an address is replaced by another
 				sub = "addr-"
 			}
-			s.hostAddrs = append(s.hostAddrs, ma.StringCast(fmt.Sprintf("/ip4/9.9.%d.%d/tcp/%d", s.rnd.Intn(200), n, 4000+n)))
+			s.hostAddrs = append(s.hostAddrs, ma.StringCast(fmt.Sprintf("/ip4/9.9.%d.%d/tcp/%d", s.rnd.Intn(200), n%250, 4000+n)))
 		case k == 2 && len(s.hostProtos) > 3:
 			sub = "proto-"
-			s.hostProtos = append(s.hostProtos[:3:3], s.hostProtos[4:]...) // a protocol handler is removed
+			s.hostProtos = append(s.hostProtos[:3:3], s.hostProtos[4:]...) // a protocol handler is replaced by another
 			s.hostProtos = append(s.hostProtos, protocol.ID(fmt.Sprintf("/vf/q%d", n)))
 		default:
 			s.hostProtos = append(s.hostProtos, protocol.ID(fmt.Sprintf("/vf/p%d", n)))
 		}
-		s.mu.Unlock()
-		if sub == "rec" {
-			if err := s.newRecord(); err != nil {
-				return "", err
-			}
-		}
-		s.mu.Lock()
 		s.saved[id] = s.save()
-		s.mu.Unlock()
 	case "revert":
-		s.mu.Lock()
 		sv, ok := s.saved[id]
 		if !ok || sv.rec != s.recSeq {
 			s.mu.Unlock()
 			return "", fmt.Errorf("cannot revert to content %d", id)
 		}
 		s.hostProtos, s.hostAddrs = append([]protocol.ID{}, sv.protos...), append([]ma.Multiaddr{}, sv.addrs...)
-		s.mu.Unlock()
 		sub = "revert"
 	default:
+		s.mu.Unlock()
 		return "", fmt.Errorf("unknown change kind %q", kind)
 	}
 	s.noteHost()
-	s.emit(strings.HasPrefix(sub, "proto") || (sub == "revert" && s.rnd.Intn(2) == 0))
+	protos := strings.HasPrefix(sub, "proto") || (sub == "revert" && s.rnd.Intn(2) == 0)
+	s.mu.Unlock()
+	s.emit(protos)
 	return sub, nil
 }
 
@@ -927,6 +960,7 @@ func (s *vfC13pSys) connect(name string, idx int) *vfC13pConn {
 	s.order = append(s.order, name)
 	l := &vfC13pConnLedger{connected: 1 << 30}
 	s.led[name] = l
+	s.trace.Emit("connecting", "c", name)
 	s.mu.Unlock()
 	s.notifiees[0].Connected(s.net, c)
 	s.mu.Lock() // (logged once the entry exists: a round that starts later cannot miss the connection)
@@ -1487,6 +1521,7 @@ func (s *vfC13pSys) closeConn(c *vfC13pConn) {
 // flip: the host goes back to the state it had before its latest change (free runs)
 func (s *vfC13pSys) flip() bool {
 	s.mu.Lock()
+	s.quiet()
 	if len(s.undo) == 0 || s.undo[len(s.undo)-1].rec != s.recSeq {
 		s.mu.Unlock()
 		return false
@@ -1494,9 +1529,10 @@ func (s *vfC13pSys) flip() bool {
 	sv := s.undo[len(s.undo)-1]
 	s.undo = s.undo[:len(s.undo)-1]
 	s.hostProtos, s.hostAddrs = sv.protos, sv.addrs
-	s.mu.Unlock()
 	s.noteHost()
-	s.emit(s.rnd.Intn(2) == 0)
+	protos := s.rnd.Intn(2) == 0
+	s.mu.Unlock()
+	s.emit(protos)
 	return true
 }
 
@@ -1560,6 +1596,18 @@ func vfC13pScenario(t *testing.T, res *vfh.Result, it int, path string) {
 	}
 	time.Sleep(2 * time.Second) // virtual: every delay of the script has passed
 	synctest.Wait()
+	if os.Getenv("VERIF_C13P_DEBUG") != "" {
+		sys.ids.connsMu.RLock()
+		for c, e := range sys.ids.conns {
+			t.Logf("entry %v: support %d seq %d", c, e.PushSupport, e.Sequence)
+		}
+		sys.ids.connsMu.RUnlock()
+		t.Logf("snapshot seq %d", sys.ids.currentSnapshot.snapshot.seq)
+		for _, e := range sys.trace.Events() {
+			b, _ := json.Marshal(e)
+			t.Logf("%s", b)
+		}
+	}
 	sys.rest()
 	for _, m := range sys.finish() {
 		res.AddMismatch(vfh.Mismatch{Class: m.Class, What: m.What, Walk: it, Step: -1, Expected: m.Exp, Got: m.Got,
@@ -1671,7 +1719,11 @@ func TestVerifC13pFree(t *testing.T) {
 	res.Rule = "one case = one seeded gate-free scenario (connections come, are identified, ask for identify, go; the host changes and flips back; push attempts take virtual-time delays and fail by script); its observable trace is validated against spec/C13_PushObs.tla"
 	path := filepath.Join(out, "traces.ndjson")
 	iters := vfh.EnvInt("VERIF_C13P_ITERS", 150)
+	only := vfh.EnvInt("VERIF_C13P_ONLY", -1) // re-run one scenario of a replay artefact
 	for it := 0; it < iters; it++ {
+		if only >= 0 && it != only {
+			continue
+		}
 		synctest.Test(t, func(t *testing.T) { vfC13pScenario(t, res, it, path) })
 	}
 	synctest.Test(t, func(t *testing.T) { vfC13pLimit(t, res, path) })
